@@ -32,6 +32,7 @@ type q2Scn struct {
 	Cancel bool
 	Close  bool
 	FailAt int
+	Second bool // a second query to another address follows; nobody answers it
 }
 
 func q2Scenarios() []q2Scn {
@@ -45,6 +46,7 @@ func q2Scenarios() []q2Scn {
 		{Name: "timeout", Tries: 2},
 		{Name: "fail2-reply", Tries: 2, Reply: true, FailAt: 2},
 		{Name: "all", Tries: 2, Reply: true, Cancel: true, Close: true},
+		{Name: "reply-cancel-then-second", Tries: 1, Reply: true, Cancel: true, Second: true},
 	}
 }
 
@@ -81,7 +83,8 @@ func runQ2(t *testing.T, scn *q2Scn, prefix []int) (x explore.Exec) {
 		c.tick, c.maxTicks = time.Second, 4*(scn.Tries+2) // hard cap; deliberate (non-default) ticks are bounded by the DFS observation budget
 		ctx, cancel := context.WithCancel(context.Background())
 		defer cancel()
-		var qr dht.QueryResult
+		var qr, qr2 dht.QueryResult
+		second := false
 		returned, replied, cancelled, closed := false, false, false, false
 		firstWrite := make(chan struct{})
 		var tid string
@@ -101,6 +104,11 @@ func runQ2(t *testing.T, scn *q2Scn, prefix []int) (x explore.Exec) {
 			verifsched.Tag("h:query")
 			verifsched.Point("api")
 			qr = y.S.Query(ctx, dht.NewAddr(peer), "ping", dht.QueryInput{NumTries: scn.Tries})
+			if scn.Second {
+				verifsched.Point("api2")
+				qr2 = y.S.Query(context.Background(), dht.NewAddr(sim.UDP4(61, 1, 1, 9, 6199)), "ping", dht.QueryInput{NumTries: 1})
+				second = true
+			}
 			returned = true
 		}()
 		if scn.Reply {
@@ -203,6 +211,8 @@ func runQ2(t *testing.T, scn *q2Scn, prefix []int) (x explore.Exec) {
 		}
 		outcome = fmt.Sprintf("%s sends=%d", class, sends)
 		switch {
+		case second && qr2.Err == nil && qr2.Reply.Y != "":
+			viol = fmt.Sprintf("completed-by-foreign-reply: the second query (to another address, never answered) returned a reply: %+v", qr2.Reply)
 		case sends > scn.Tries:
 			viol = fmt.Sprintf("too-many-sends: %d datagrams for NumTries=%d", sends, scn.Tries)
 		case sendsAtReturn >= 0 && y.Conn.NumWrites() != sendsAtReturn:
